@@ -152,7 +152,8 @@ def props_check(pid):
         res["detail"] = "Props/%s.v missing" % pid
         return res
     ob = props_obligations(pid)
-    rc, out = sh("timeout 900 coqc -Q . KV Props/%s.v -o %s/props_%s.vo" % (pid, BUILD, pid), cwd=COQ, timeout=1000)
+    os.makedirs(os.path.join(BUILD, "props"), exist_ok=True)
+    rc, out = sh("timeout 900 coqc -Q . KV Props/%s.v -o %s/props/%s.vo" % (pid, BUILD, pid), cwd=COQ, timeout=1000)
     res["detail"] = out[-3000:]
     if rc != 0:
         return res
